@@ -22,14 +22,14 @@ import (
 // query endpoint is compared with the model.
 
 // full = the whole product (thorough tier). The quick tier takes a slice of it: both peers
-// connected (one-peer histories are covered exhaustively by VerifC14_Histories), the frame witness on the other topic always present, and operations aimed at
-// the focus topic only.
+// connected (one-peer histories are covered exhaustively by VerifC14_Histories), the frame
+// witness on the other topic always present, operations aimed at the focus topic only, one
+// channel in a general state, and the channels view checks the key endpoints and the state
+// correspondence only.
 func (w *verifC14World) genConnections(full bool) {
 	n := verifC14NP
 	if full {
 		n = verifrt.Choice("connected", verifC14NP+1)
-	} else {
-		n = verifC14NP
 	}
 	for p := 0; p < n; p++ {
 		w.connect(p)
